@@ -51,7 +51,7 @@ fi
 
 case "$MODE" in
   quick) PROCS=16; PER=1; ROUNDS=2;;      # 32 jobs x (1 general + 5 high-contention) = 192 scenario runs
-  thorough) PROCS=16; PER=3; ROUNDS=20;;  # 960 indices = 5760 scenario runs
+  thorough) PROCS=16; PER=3; ROUNDS=10;;  # 480 indices = 2880 scenario runs
   *) echo "usage: miri/run.sh build|quick|thorough|replay <file>"; exit 2;;
 esac
 T0=$(date +%s)
